@@ -35,6 +35,9 @@ type c03Case struct {
 	// under property "zz" (the expectation is then: Resolve errors).
 	Dangling    string `json:"dangling,omitempty"`
 	DanglingWhy string `json:"dangling_why,omitempty"`
+	// DanglingAt: the $defs names leading from the root to the subschema that gets the planted
+	// reference (empty = the root itself).
+	DanglingAt []string `json:"dangling_at,omitempty"`
 }
 
 func relinkAliases(u *ugen.Universe) {
@@ -91,10 +94,19 @@ func (c *c03Case) root() *jv.V {
 		return c.U.Root
 	}
 	r := c.U.Root.Clone()
-	p := r.Get("properties")
+	site := r
+	for _, name := range c.DanglingAt {
+		d := site.Get("$defs")
+		if d == nil || d.Get(name) == nil || d.Get(name).K != jv.Obj {
+			site = r
+			break
+		}
+		site = d.Get(name)
+	}
+	p := site.Get("properties")
 	if p == nil {
 		p = jv.ObjV()
-		r.Set("properties", p)
+		site.Set("properties", p)
 	}
 	p.Set("zz", jv.ObjV(jv.Member{K: "$ref", V: jv.StrV(c.Dangling)}))
 	return r
@@ -240,20 +252,23 @@ func checkC03(c *c03Case, rec *ev.Recorder) *failure {
 }
 
 // plantDangling chooses a reference that designates nothing in universe u.
-func plantDangling(t *rapid.T, u *ugen.Universe) (string, string) {
-	type d struct{ ref, why string }
+func plantDangling(t *rapid.T, u *ugen.Universe) (string, string, []string) {
+	type d struct {
+		ref, why string
+		at       []string
+	}
 	cands := []d{
-		{"#no-such-anchor", "absent anchor"},
-		{"#/$defs/nope", "pointer to nowhere"},
-		{"#/properties/zz/nope", "pointer to nowhere"},
+		{"#no-such-anchor", "absent anchor", nil},
+		{"#/$defs/nope", "pointer to nowhere", nil},
+		{"#/properties/zz/nope", "pointer to nowhere", nil},
 	}
 	if u.BaseURI != "" {
-		cands = append(cands, d{"missing-document.json", "unknown document"}, d{"http://nowhere.test/x.json#foo", "unknown document"})
+		cands = append(cands, d{"missing-document.json", "unknown document", nil}, d{"http://nowhere.test/x.json#foo", "unknown document", nil})
 	} else {
-		cands = append(cands, d{"http://nowhere.test/x.json", "unknown document"})
+		cands = append(cands, d{"http://nowhere.test/x.json", "unknown document", nil})
 	}
 	for _, k := range sortedKeys(u.Docs) {
-		cands = append(cands, d{k + "#definitely-not-an-anchor", "absent anchor in remote document"}, d{k + "#/$defs/nope/x", "pointer to nowhere in remote document"})
+		cands = append(cands, d{k + "#definitely-not-an-anchor", "absent anchor in remote document", nil}, d{k + "#/$defs/nope/x", "pointer to nowhere in remote document", nil})
 		// an anchor that exists only inside an embedded resource of that document must not be
 		// visible from the document's root resource
 		doc := u.Docs[k]
@@ -279,15 +294,47 @@ func plantDangling(t *rapid.T, u *ugen.Universe) (string, string) {
 						}
 						scan(doc, true)
 						if !clash {
-							cands = append(cands, d{k + "#" + a.S, "anchor of another (embedded) resource"})
+							cands = append(cands, d{k + "#" + a.S, "anchor of another (embedded) resource", nil})
 						}
 					}
 				}
 			}
 		}
 	}
+	// inside an embedded resource of the root document, a pointer that is valid from the document
+	// root but not from the resource root it is relative to (whether it designates something there
+	// is left to the model)
+	type loc struct {
+		path []string
+		v    *jv.V
+	}
+	var all, resources []loc
+	var walk func(v *jv.V, path []string)
+	walk = func(v *jv.V, path []string) {
+		if v.K != jv.Obj {
+			return
+		}
+		all = append(all, loc{path, v})
+		if len(path) > 0 && v.Has("$id") {
+			resources = append(resources, loc{path, v})
+		}
+		if dd := v.Get("$defs"); dd != nil && dd.K == jv.Obj {
+			for _, m := range dd.O {
+				walk(m.V, append(append([]string{}, path...), m.K))
+			}
+		}
+	}
+	walk(u.Root, nil)
+	for _, r := range resources {
+		for _, n := range all {
+			if len(n.path) == 0 {
+				continue
+			}
+			cands = append(cands, d{"#/$defs/" + strings.Join(n.path, "/$defs/"), "pointer relative to the document root used inside an embedded resource", r.path})
+		}
+	}
 	x := cands[rapid.IntRange(0, len(cands)-1).Draw(t, "dangling")]
-	return x.ref, x.why
+	return x.ref, x.why, x.at
 }
 
 func TestC03(t *testing.T) {
@@ -329,7 +376,7 @@ func propC03(rec *ev.Recorder) func(t *rapid.T) {
 			sort.Strings(u.Faults)
 		}
 		if rapid.IntRange(0, 4).Draw(t, "plantdangling") == 0 {
-			c.Dangling, c.DanglingWhy = plantDangling(t, u)
+			c.Dangling, c.DanglingWhy, c.DanglingAt = plantDangling(t, u)
 		}
 		rec.Class(fmt.Sprintf("documents:%d", 1+len(u.Docs)-len(u.Alias)))
 		rec.ClassIf(u.BaseURI == "", "config:empty-base-uri")
